@@ -181,7 +181,9 @@ Proof. vm_compute. reflexivity. Qed.
 Example C18_nan_passes_bounds : forall fs lo hi, validate fs (KDecimalBetween lo hi) VFloatNaN = true.
 Proof. reflexivity. Qed.
 
-(* the range specification of catchment's YearsOfErosion admits 0 (see the late-failure probe of the harness) *)
+(* a range specification `0 <= n` (IsNonNegativeInteger, which catchment's YearsOfErosion used before the proposed
+   fix C18-1) admits 0: nothing in the parameter machinery can protect a consumer that divides by the value.  That
+   the real model then panics is shown on the implementation by the harness's late-failure probe, not in this model. *)
 Example C18_years_of_erosion_zero_is_accepted : forall fs,
   validate fs (KIntegerBetween 0 9223372036854775807) (VInt 0) = true.
 Proof. reflexivity. Qed.
